@@ -287,3 +287,33 @@ Proof.
   pose proof (graph_of_scan_spec imports st HI Hdone f (ex_intro _ i Hf)) as H.
   unfold index_of_file at 1 in H. now rewrite Hf in H.
 Qed.
+
+(* the allocation can be read backwards: the file of a source index *)
+Definition decode_neg (i : Z) : Z := let n := - i - 1 in if Z.odd n then - (n / 2) else n / 2.
+Fixpoint file_of_vis (i : Z) (l : list (Z * Z)) : option Z :=
+  match l with [] => None | (f, j) :: r => if i =? j then Some f else file_of_vis i r end.
+Definition file_of_index (st : scan) (i : Z) : Z :=
+  if i <? 0 then decode_neg i else match file_of_vis i (sc_vis st) with Some f => f | None => -1 end.
+
+Lemma decode_neg_code f : decode_neg (neg_code f) = f.
+Proof.
+  unfold decode_neg, neg_code. destruct (f <? 0) eqn:E.
+  - replace (- (- (2 * Z.abs f + 1) - 1) - 1) with (1 + 2 * Z.abs f) by lia.
+    rewrite Z.odd_add_mul_2. cbn [Z.odd]. replace ((1 + 2 * Z.abs f) / 2) with (Z.abs f) by lia. lia.
+  - replace (- (- (2 * Z.abs f + 0) - 1) - 1) with (0 + 2 * Z.abs f) by lia.
+    rewrite Z.odd_add_mul_2. cbn [Z.odd]. replace ((0 + 2 * Z.abs f) / 2) with (Z.abs f) by lia. lia.
+Qed.
+
+Lemma file_of_index_spec imports st : Core imports st -> forall f, file_of_index st (index_of_file st f) = f.
+Proof.
+  intros HI f. unfold file_of_index, index_of_file. destruct (lookupz f (sc_vis st)) as [i|] eqn:E.
+  - apply lookupz_in in E. pose proof (inv_range imports st HI f i E) as Hr.
+    destruct (i <? 0) eqn:Ei; [lia|].
+    pose proof (inv_nodup_i imports st HI) as ND. clear -ND E.
+    induction (sc_vis st) as [|[g j] r IH]; [contradiction|]. cbn [file_of_vis map snd] in *.
+    inversion ND as [|? ? Hn ND']; subst. destruct E as [E|E].
+    + inversion E; subst. now rewrite Z.eqb_refl.
+    + destruct (i =? j) eqn:Eij; [|now apply IH].
+      apply Z.eqb_eq in Eij; subst. exfalso. apply Hn. change j with (snd (f, j)). now apply in_map.
+  - pose proof (neg_code_neg imports f). destruct (neg_code f <? 0) eqn:En; [apply decode_neg_code | lia].
+Qed.
